@@ -94,9 +94,10 @@ class Output(BaseOutput):
             self.output_period = -self.output_period
         logger.info("  Output period: %s", str(self.output_period))
 
-        self.num_records = int(
-            abs((timer.stop_time - timer.start_time) // self.output_period)
-        )
+        if skip_initial:  # Warm start: records at steps ops, 2*ops, ... <= Nsteps
+            self.num_records = int(timer.Nsteps // self.output_period_step)
+        else:  # Cold start: records at steps 0, ops, 2*ops, ... < Nsteps
+            self.num_records = int(-(-timer.Nsteps // self.output_period_step))
         # if not skip_initial:  # Add an initial record
         #     self.num_records += 1
         logger.info("  Number of records: %s", self.num_records)
